@@ -7,6 +7,7 @@ import (
 	"math/rand"
 	"sort"
 	"strings"
+	"time"
 
 	"verifharness/internal/core"
 	"verifharness/internal/gen"
@@ -29,8 +30,9 @@ func init() {
 			}
 			return 240
 		},
-		RunCase: c11Run,
-		Witness: runSQLWitness,
+		RunCase:     c11Run,
+		Witness:     runSQLWitness,
+		CaseTimeout: 40 * time.Second,
 		Vacuity: func(env *core.Env, agg *core.Aggregate) []string {
 			var out []string
 			shapes := strings.Join(agg.SetNames("plan_shapes"), " ")
@@ -46,10 +48,10 @@ func init() {
 
 type c11Query struct {
 	sql    string
-	tables []int      // indexes into state tables, in FROM order
-	joins  [][4]int   // (tableA, colA, tableB, colB) equalities
-	filt   []c11Filt  // filters
-	sel    [][2]int   // (table, col) output columns
+	tables []int     // indexes into state tables, in FROM order
+	joins  [][4]int  // (tableA, colA, tableB, colB) equalities
+	filt   []c11Filt // filters
+	sel    [][2]int  // (table, col) output columns
 	tags   []string
 }
 
